@@ -2,5 +2,5 @@ From MV Require Import Lib.ExtractBase C10.Model.
 From Coq Require Import ExtrOcamlBasic.
 Extraction Language OCaml.
 Extraction "c10_model" force_types upd get getn heap_init heap_ensure_capacity heap_insert heap_root
-  heap_extract heap_find heap_remove insertion_sort shell_sort heap_sort merge_sort quick_sort quick_sort_c
+  heap_extract heap_find heap_remove heap_remove_cb heap_clear heap_clear_cb heap_destroy insertion_sort shell_sort heap_sort merge_sort quick_sort quick_sort_c
   quick_sort_cutoff iota.
